@@ -405,6 +405,7 @@ class Runner
 	std::deque<std::string> history;
 	unsigned maxSize;
 	uint64_t opCount = 0;
+	bool broken = false;	// a property-level failure was reported: the rest of this configuration would only repeat it
 
 public:
 	Runner(Ctx& c_, Rng& rng_, Suite& s_, const std::string& name) : c(c_), rng(rng_), s(s_), cfgName(name) {}
@@ -412,14 +413,15 @@ public:
 	void run(const Budget& b)
 	{
 		maxSize = b.maxSize;
-		for (unsigned r = 0; r < b.rounds; ++r) {
+		for (unsigned r = 0; r < b.rounds && !broken; ++r) {
 			s.comment(fmt("%s round %u", cfgName.c_str(), r));
 			history.clear();
 			for (int o = 0; o < slotCount; ++o) has[o] = false;
 			create(0, (unsigned)rng.below(4));
-			unsigned big = (r % 4 == 3) ? 1 : 0;	// every 4th round lets the array grow past the growth thresholds
-			for (unsigned k = 0; k < b.opsPerRound; ++k) oneOp(big);
-			reserveScenario();
+			unsigned big = (r % 4 == 3) ? 1 : 0;	// every 4th round lets the array grow past the growth thresholds (2, 64, 150)
+			if (big) bulk();
+			for (unsigned k = 0; k < b.opsPerRound && !broken; ++k) oneOp(big);
+			if (!broken) reserveScenario();
 			for (int o = 0; o < slotCount; ++o) if (has[o]) destroy(o);
 			if (memLog().liveBlocks != 0) fail("C05 memory: live blocks after destroying everything", fmt("%lld", memLog().liveBlocks));
 		}
@@ -437,6 +439,7 @@ private:
 		std::string h;
 		for (auto& l : history) { h += l; h += "; "; }
 		c.fail("%s: %s seed=%llu config=[%s] history(last %zu ops)=[%s]", what.c_str(), detail.c_str(), (unsigned long long)c.seed, cfgName.c_str(), history.size(), h.c_str());
+		broken = true;
 	}
 	void note(const std::string& line) { history.push_back(line); if (history.size() > 14) history.pop_front(); }
 
@@ -486,6 +489,21 @@ private:
 		has[o] = true; reserved[o] = -1;
 		note(line); emit(line, o); compare(o);
 		c.stats.count("op.create");
+	}
+	// start of a "big" round: jump to a size between the growth thresholds
+	void bulk() {
+		int o = 0;
+		C& a = *obj[o]; std::vector<T>& r = ref[o];
+		size_t cnt = (size_t)rng.range(50, maxSize - 20);
+		setOracle(o);
+		memLog().clear();
+		uint32_t id = fresh(); T v = Cd::make(id);
+		std::string line;
+		if (cnt >= r.size() && rng.chance(1, 2)) { line = fmt("setc %d %zu v%u", o, cnt, id); Ad::setc(a, cnt, v); r.resize(cnt, v); }
+		else { size_t idx = pickIndex(r.size()); line = fmt("insn %d %zu %zu v%u", o, idx, cnt, id); Ad::insn(a, idx, cnt, v); r.insert(r.begin() + (ptrdiff_t)idx, cnt, v); }
+		note(line); emit(line, o); compare(o);
+		branchStats(0, r.size());
+		c.stats.count("op.bulk");
 	}
 	void destroy(int o) {
 		memLog().clear();
@@ -814,7 +832,7 @@ private:
 		if (Ad::cap(a) < n) fail("C05 reserve: capacity below the request", fmt("requested %zu capacity %zu", n, Ad::cap(a)));
 		reserved[o] = (long long)n;
 		unsigned guard = 0;
-		while (r.size() < n && guard++ < 400) {
+		while (r.size() < n && guard++ < 400 && !broken) {
 			size_t sz = r.size(), room = n - sz;
 			setOracle(o);
 			memLog().clear();
